@@ -244,6 +244,17 @@ fn cross_table(tables: &[Table<'_>], kind: WrittenKind, rel: Relations, problems
     };
     let num_glyphs = usize::from(be16(maxp, 4).unwrap_or(0));
     let loc_format = be16(head, 50).unwrap_or(0);
+    if kind == WrittenKind::Instance && get(u32::from_be_bytes(*b"fvar")).is_none() {
+        // a static instance: the tables that only refine `fvar` axes have nothing to refer to
+        for t in [b"avar", b"cvar", b"gvar", b"HVAR", b"VVAR", b"MVAR"] {
+            if get(u32::from_be_bytes(*t)).is_some() {
+                bad(
+                    "instance-variation-table",
+                    format!("{} present in an instance that has no fvar", String::from_utf8_lossy(t)),
+                );
+            }
+        }
+    }
     if let (true, Some(hhea), Some(hmtx)) = (rel.hmtx, get(tag::HHEA), get(tag::HMTX)) {
         let nhm = usize::from(be16(hhea, 34).unwrap_or(0));
         if nhm > num_glyphs {
